@@ -184,7 +184,7 @@ func (c *Check) finish(tier string, seed uint64, outs []RunOut, findings *kit.Fi
 			continue
 		}
 		nviol++
-		if c.Minimise != nil {
+		if c.Minimise != nil && mayMinimise() {
 			if m := c.Minimise(v); m != nil {
 				v = m
 			}
@@ -277,3 +277,21 @@ func (c *Check) ReplayFile(path string) int {
 }
 
 var Registry = map[string]func() *Check{}
+
+// mayMinimise rations minimisation: a change that breaks a property in many
+// ways at once produces hundreds of distinct keys, and shrinking each of them
+// would turn a one-minute check into an hour. The first few keys (in sorted
+// order) are minimised within a total time budget; the rest are reported with
+// their original scenario, which replays all the same.
+var (
+	minimStart time.Time
+	minimCount int
+)
+
+func mayMinimise() bool {
+	if minimCount == 0 {
+		minimStart = time.Now()
+	}
+	minimCount++
+	return minimCount <= 8 && time.Since(minimStart) < 150*time.Second
+}
